@@ -116,7 +116,7 @@ def parse_output(text, flavour):
             parts = line.split()
             last_begin = (parts[1], parts[2], int(parts[3]), int(parts[4]) if len(parts) > 4 else 0)
         elif line.startswith("VIOL "):
-            m = re.match(r"VIOL (\S+) (\S+) (\d+) (\S+) props=(\d+) mine=(\d) at=(-?\d+) :: (.*)", line)
+            m = re.match(r"VIOL (\S+) (\S+) (\d+) (\S+) props=(\d+) mine=(\d) at=(-?\d+) kind=(\S+) :: (.*)", line)
             cur = Violation()
             cur.flavour = flavour
             if m:
@@ -124,7 +124,8 @@ def parse_output(text, flavour):
                 cur.oracle = m.group(4)
                 cur.props = props_from_mask(int(m.group(5)))
                 cur.at = int(m.group(7))
-                cur.msg = m.group(8)
+                cur.kind_reported = m.group(8)
+                cur.msg = m.group(9)
         elif line.startswith("H ") and cur is not None:
             body = line[2:]
             if body.startswith("world"):
@@ -132,7 +133,7 @@ def parse_output(text, flavour):
             else:
                 cur.ops.append(body)
         elif line == "ENDVIOL" and cur is not None:
-            cur.op_kind = op_kind_at(cur.ops, cur.at)
+            cur.op_kind = getattr(cur, "kind_reported", None) or op_kind_at(cur.ops, cur.at)
             viols.append(cur)
             cur = None
         elif line.startswith("PH "):
@@ -456,15 +457,22 @@ def known_match(v, prop, known):
     return None
 
 
-def known_args_for(prop, known):
-    """Engine-level suppression (count and continue) for known findings that do not kill the
-    process."""
+def known_items_for(prop, known):
+    """[(finding, op)] in the order in which they are handed to the engine (--known)."""
     items = []
     for k in known:
-        if k.get("status") == "known" and k.get("engine_suppress") and k.get("property") == prop:
+        if k.get("status") == "known" and k.get("engine_suppress"):
             for o in k.get("ops", ["*"]):
-                items.append("%s:%s" % (k["oracle"], o))
-    return ["--known", ",".join(items)] if items else []
+                items.append((k, o))
+    return items
+
+
+def known_args_for(prop, known):
+    """Engine-level suppression (count, resynchronise, continue) for the listed known findings
+    that do not kill the process. Every check passes them, so that a finding owned by one
+    property does not cut short the runs of another."""
+    items = known_items_for(prop, known)
+    return ["--known", ",".join("%s:%s" % (k["oracle"], o) for k, o in items)] if items else []
 
 
 # ---------------------------------------------------------------------------- evidence
